@@ -31,7 +31,9 @@ RULE = ("dedicated clock cases: every period in {1,2,3,7,10,1000,999983} x {1,2,
         "1-3 clock domains (pos/neg edge, with/without reset), 1-4 submodules in a hierarchy with random comb/sync statements "
         "(exprgen terms, If-guards), 0-2 user processes in the two documented patterns, 1-3 clocks, 1-3 testbenches with "
         "scripts of <= 25 operations set/get/tick/tick.sample/delay/posedge/negedge/changed/until/repeat/trigger "
-        "combinations. Every scenario runs under k orders (quick 6, thorough 40) of all engine sets. "
+        "combinations; split-signal scenarios: one bus / register whose slices are owned by 2-3 comb fragments, by 2-3 clock "
+        "domains with coincident edges, or by a comb and a sync process, the whole signal read after every set/tick. "
+        "Every scenario runs under k orders (quick 6, thorough 40) of all engine sets. "
         "non-trivial = some testbench record carries a value that differs from the signal's init or a non-zero time; "
         "distinct by case hash")
 MODELLED = ("PySimEngine.step_design/advance, _PyEngineState.commit, _PySignalState.update/commit, _PyTriggerState, "
@@ -216,17 +218,20 @@ def build(case, variant="proc"):
     for cd in cds:
         top.domains += cd
     mods = []
+
+    def lhs(tgt):       # a whole signal, or [sig, lo, hi]: a slice owned by this (fragment, domain)
+        return sigs[tgt] if isinstance(tgt, int) else sigs[tgt[0]][tgt[1]:tgt[2]]
     for k, md in enumerate(case["mods"]):
         m = Module()
         for tgt, term in md["comb"]:
-            m.d.comb += sigs[tgt].eq(G.build(term, sigs))
+            m.d.comb += lhs(tgt).eq(G.build(term, sigs))
         for d, tgt, term, cond in md["sync"]:
             dn = case["doms"][d]["name"]
             if cond is None:
-                m.d[dn] += sigs[tgt].eq(G.build(term, sigs))
+                m.d[dn] += lhs(tgt).eq(G.build(term, sigs))
             else:
                 with m.If(G.build(cond, sigs)):
-                    m.d[dn] += sigs[tgt].eq(G.build(term, sigs))
+                    m.d[dn] += lhs(tgt).eq(G.build(term, sigs))
         mods.append(m)
     for k, md in enumerate(case["mods"]):
         parent = top if md["parent"] is None else mods[md["parent"]]
@@ -609,6 +614,72 @@ def _rand_value(rng, w, sg):
     return G.rand_value(rng, w, sg)
 
 
+def _split_case(rng, kind):
+    """one signal whose bits are owned by several simulator processes that fire in the same delta:
+    "bus"  : 2-3 submodules each drive a slice of one bus combinationally from a common input;
+    "reg"  : two clock domains with coincident edges (equal period and phase) each own a part of one register;
+    "mixed": a comb process and a sync process (plus possibly a second domain) drive different bits of one signal.
+    The whole signal is read after every set / tick."""
+    sigs, doms, clocks, mods, tbs = [], [], [], [], []
+    period = rng.choice((2, 4, 10, 14, 1000)) if kind != "bus" else 10
+    phase = rng.choice((None, 0, 1, period // 2, period))
+    ndom = {"bus": rng.choice((0, 1)), "reg": rng.choice((2, 2, 3)), "mixed": rng.choice((1, 2))}[kind]
+    for d in range(ndom):
+        clk = len(sigs)
+        sigs.append([1, False, 0, False])
+        doms.append({"name": ["sync", "b", "c"][d], "edge": "pos", "clk": clk, "rst": None})
+        clocks.append([d, period, phase])          # equal period and phase: every edge coincides
+    nin = rng.randrange(1, 3)
+    ins = []
+    for _ in range(nin):
+        w = rng.randrange(2, 6)
+        sigs.append([w, False, rng.randrange(0, 1 << w), False])
+        ins.append(len(sigs) - 1)
+    nparts = {"bus": rng.choice((2, 3)), "reg": ndom, "mixed": ndom + 1}[kind]
+    signed = rng.random() < 0.25
+    cuts = sorted(rng.sample(range(1, 9), nparts - 1))
+    W = rng.randrange(cuts[-1] + 1, 10)
+    bounds = list(zip([0] + cuts, cuts + [W]))
+    init = rng.randrange(0, 1 << W)
+    shared = len(sigs)
+    sigs.append([W, signed, pynorm(W, signed, init), False])
+    shapes = [[w, sg] for (w, sg, _, _) in sigs]
+    nm = rng.randrange(1, nparts + 1) if kind != "bus" else nparts      # bus: one fragment per slice
+    mods = [{"parent": (None if k == 0 or rng.random() < 0.5 else rng.randrange(0, k)), "comb": [], "sync": []}
+            for k in range(nm)]
+
+    def term(extra):
+        leaves = ins + extra
+        op = rng.choice(("+", "-", "^", "&", "|", "*"))
+        a = ["s", rng.choice(leaves)]
+        b = ["s", rng.choice(leaves)] if rng.random() < 0.5 else ["c", rng.randrange(1, 8), 3, False]
+        return ["o2", op, a, b]
+    for j, (lo, hi) in enumerate(bounds):
+        tgt = [shared, lo, hi]
+        mod = mods[j % nm]
+        if kind == "bus" or (kind == "mixed" and j == 0):
+            mod["comb"].append([tgt, term([])])
+        else:
+            d = j if kind == "reg" else j - 1
+            # registers feed on the whole shared signal: a lost slice shows up in every later cycle
+            mod["sync"].append([d, tgt, ["o2", "+", ["sl", ["s", shared], lo, hi], term([shared])], None])
+    for k in range(rng.randrange(1, 3)):
+        script = [["get", shared]]
+        for _ in range(rng.randrange(4, 10)):
+            c = rng.random()
+            if c < 0.5 or not doms:
+                i = rng.choice(ins)
+                script.append(["set", i, rng.randrange(0, 1 << shapes[i][0])])
+            elif c < 0.85:
+                script.append(["tick", rng.randrange(ndom), [shared]])
+            else:
+                script.append(["delay", rng.choice((period, period // 2, 1))])
+            script.append(["get", shared])
+        tbs.append(script)
+    return {"sigs": sigs, "doms": doms, "mods": mods, "uprocs": [], "clocks": clocks, "tbs": tbs,
+            "t_end": 40 * period, "r": f"split:{kind}:{nparts}parts"}
+
+
 def _scenario(rng, want_uproc):
     ndom = rng.choice((1, 1, 2, 2, 3))
     sigs, doms = [], []
@@ -766,6 +837,9 @@ def gen_cases(tier, seed):
         cases.append(_delay_case(rng))
     for i in range(3000 if thorough else 320):
         cases.append(_scenario(rng, want_uproc=(i % 3 == 0)))
+    rng2 = random.Random(f"split:{seed}")
+    for i in range(600 if thorough else 90):
+        cases.append(_split_case(rng2, ("bus", "reg", "mixed")[i % 3]))
     for c in cases:
         c["korders"] = k
     return cases
